@@ -312,9 +312,10 @@ def _cache_getattr(self, ex, name):
             self.dom = z3.Lambda([i], z3.Or(dom[i], fd[i]))
             self.val = z3.Lambda([i], z3.If(fd[i], fv[i], val[i]))
         return NativeStub(update, "cache.update")
-    raise Unsupported(f"_sp_cache.{name}")
+    return _cache_getattr_base(self, ex, name)
 
 
+_cache_getattr_base = SCache.sym_getattr          # setdefault / get / pop (jobfs)
 SCache.sym_getattr = _cache_getattr
 CARD = z3.Function("CARD", z3.ArraySort(Id, z3.BoolSort()), z3.IntSort())      # number of keys of a finite map (a function of its key set)
 SCache.sym_len = lambda self, ex: SInt(CARD(self.dom))
